@@ -710,6 +710,12 @@ let rec nth_error l = function
            | [] -> None
            | _ :: l0 -> nth_error l0 n1)
 
+(** val rev0 : 'a1 list -> 'a1 list **)
+
+let rec rev0 = function
+| [] -> []
+| x :: l' -> app (rev0 l') (x :: [])
+
 (** val map : ('a1 -> 'a2) -> 'a1 list -> 'a2 list **)
 
 let rec map f = function
@@ -1839,6 +1845,31 @@ let gen_CALL =
 
 let gen_APPLY =
   'a'::('p'::('p'::('l'::('y'::[]))))
+
+(** val gen_min_literal_length : n **)
+
+let gen_min_literal_length =
+  Npos (XO (XI (XO XH)))
+
+(** val gen_max_literal_length : n **)
+
+let gen_max_literal_length =
+  Npos (XO (XO (XO (XO (XO (XO (XO (XO XH))))))))
+
+(** val gen_len_ok : n -> bool **)
+
+let gen_len_ok len =
+  (&&) (N.ltb gen_min_literal_length len) (N.leb len gen_max_literal_length)
+
+(** val gen_REQUIRE : char list **)
+
+let gen_REQUIRE =
+  'r'::('e'::('q'::('u'::('i'::('r'::('e'::[]))))))
+
+(** val gen_REGEXP : char list **)
+
+let gen_REGEXP =
+  'R'::('e'::('g'::('E'::('x'::('p'::[])))))
 
 (** val gen_prologue_template : char list **)
 
@@ -3725,6 +3756,2803 @@ let rec decode_mappings_from fuel s st =
 let decode_mappings s =
   decode_mappings_from (S (length0 s)) s { d_line = N0; d_col = Z0; d_src =
     Z0; d_sl = Z0; d_sc = Z0; d_name = Z0 }
+
+type lit_entry = { le_value : char list; le_span : sp;
+                   le_ident : char list option }
+
+(** val str_value : node -> char list option **)
+
+let str_value = function
+| Node (t, cs) ->
+  (match t with
+   | K (k, _, _) ->
+     (match k with
+      | KStr ->
+        (match cs with
+         | [] -> None
+         | n1 :: _ ->
+           let Node (t0, cs0) = n1 in
+           (match t0 with
+            | Str v -> (match cs0 with
+                        | [] -> Some v
+                        | _ :: _ -> None)
+            | _ -> None))
+      | _ -> None)
+   | _ -> None)
+
+(** val entry_of : node -> char list option -> lit_entry list **)
+
+let entry_of n0 ident =
+  match str_value n0 with
+  | Some v ->
+    if gen_len_ok (N.of_nat (length0 v))
+    then { le_value = v; le_span = (span_of n0); le_ident = ident } :: []
+    else []
+  | None -> []
+
+(** val first_arg_is_plain_literal : node list -> bool **)
+
+let first_arg_is_plain_literal = function
+| [] -> false
+| n0 :: _ ->
+  let Node (t, cs) = n0 in
+  (match t with
+   | Obj ->
+     (match cs with
+      | [] -> false
+      | n1 :: l0 ->
+        let Node (t0, cs0) = n1 in
+        (match t0 with
+         | Nul ->
+           (match cs0 with
+            | [] ->
+              (match l0 with
+               | [] -> false
+               | e :: l1 -> (match l1 with
+                             | [] -> is_lit e
+                             | _ :: _ -> false))
+            | _ :: _ -> false)
+         | _ -> false))
+   | _ -> false)
+
+(** val callee_named : node -> char list -> bool **)
+
+let callee_named callee name =
+  match ident_sym callee with
+  | Some s -> (&&) (is_ident callee) (eqb1 s name)
+  | None -> false
+
+(** val skipped : node -> bool **)
+
+let skipped = function
+| Node (t, cs) ->
+  (match t with
+   | K (k, _, _) ->
+     (match k with
+      | KCall ->
+        (match cs with
+         | [] -> false
+         | _ :: l ->
+           (match l with
+            | [] -> false
+            | callee :: l0 ->
+              (match l0 with
+               | [] -> false
+               | n1 :: l1 ->
+                 let Node (t0, args) = n1 in
+                 (match t0 with
+                  | Lst ->
+                    (match l1 with
+                     | [] -> false
+                     | _ :: l2 ->
+                       (match l2 with
+                        | [] ->
+                          (&&) (callee_named callee gen_REQUIRE)
+                            (first_arg_is_plain_literal args)
+                        | _ :: _ -> false))
+                  | _ -> false))))
+      | KNew ->
+        (match cs with
+         | [] -> false
+         | _ :: l ->
+           (match l with
+            | [] -> false
+            | callee :: l0 ->
+              (match l0 with
+               | [] -> false
+               | n1 :: l1 ->
+                 let Node (t0, args) = n1 in
+                 (match t0 with
+                  | Lst ->
+                    (match l1 with
+                     | [] -> false
+                     | _ :: l2 ->
+                       (match l2 with
+                        | [] ->
+                          (&&) (callee_named callee gen_REGEXP)
+                            (first_arg_is_plain_literal args)
+                        | _ :: _ -> false))
+                  | _ -> false))))
+      | _ -> false)
+   | _ -> false)
+
+(** val binding_name : node -> char list option **)
+
+let binding_name id =
+  if is_ident id then ident_sym id else None
+
+(** val here : node -> lit_entry list **)
+
+let here n0 = match n0 with
+| Node (t, cs) ->
+  (match t with
+   | K (k, _, _) ->
+     (match k with
+      | KVarDeclarator ->
+        (match cs with
+         | [] -> []
+         | id :: l ->
+           (match l with
+            | [] -> []
+            | init :: _ -> entry_of init (binding_name id)))
+      | KKeyValue ->
+        (match cs with
+         | [] -> []
+         | key :: l ->
+           (match l with
+            | [] -> []
+            | value :: l0 ->
+              (match l0 with
+               | [] -> entry_of value (ident_name_sym key)
+               | _ :: _ -> [])))
+      | KStr -> entry_of n0 None
+      | _ -> [])
+   | _ -> [])
+
+(** val not_an_expression : tag -> nat -> node -> bool **)
+
+let not_an_expression parent index c =
+  (&&) (is_kind KStr c)
+    (match parent with
+     | K (k, _, _) ->
+       (match k with
+        | KKeyValue -> eqb index O
+        | KClassMethod -> eqb index O
+        | KClassProp -> eqb index O
+        | KMethodProp -> eqb index O
+        | KGetterProp -> eqb index O
+        | KSetterProp -> eqb index O
+        | KKeyValuePat -> eqb index O
+        | KImportDecl -> true
+        | KExportNamed -> true
+        | KExportAll -> true
+        | KOther name ->
+          (match name with
+           | [] -> false
+           | a::s ->
+             (* If this appears, you're using Ascii internals. Please don't *)
+ (fun f c ->
+  let n = Char.code c in
+  let h i = (n land (1 lsl i)) <> 0 in
+  f (h 0) (h 1) (h 2) (h 3) (h 4) (h 5) (h 6) (h 7))
+               (fun b b0 b1 b2 b3 b4 b5 b6 ->
+               if b
+               then if b0
+                    then false
+                    else if b1
+                         then if b2
+                              then false
+                              else if b3
+                                   then false
+                                   else if b4
+                                        then false
+                                        else if b5
+                                             then if b6
+                                                  then false
+                                                  else (match s with
+                                                        | [] -> false
+                                                        | a0::s0 ->
+                                                          (* If this appears, you're using Ascii internals. Please don't *)
+ (fun f c ->
+  let n = Char.code c in
+  let h i = (n land (1 lsl i)) <> 0 in
+  f (h 0) (h 1) (h 2) (h 3) (h 4) (h 5) (h 6) (h 7))
+                                                            (fun b7 b8 b9 b10 b11 b12 b13 b14 ->
+                                                            if b7
+                                                            then false
+                                                            else if b8
+                                                                 then false
+                                                                 else 
+                                                                   if b9
+                                                                   then false
+                                                                   else 
+                                                                    if b10
+                                                                    then 
+                                                                    if b11
+                                                                    then 
+                                                                    if b12
+                                                                    then 
+                                                                    if b13
+                                                                    then 
+                                                                    if b14
+                                                                    then false
+                                                                    else 
+                                                                    (match s0 with
+                                                                    | [] ->
+                                                                    false
+                                                                    | a1::s1 ->
+                                                                    (* If this appears, you're using Ascii internals. Please don't *)
+ (fun f c ->
+  let n = Char.code c in
+  let h i = (n land (1 lsl i)) <> 0 in
+  f (h 0) (h 1) (h 2) (h 3) (h 4) (h 5) (h 6) (h 7))
+                                                                    (fun b15 b16 b17 b18 b19 b20 b21 b22 ->
+                                                                    if b15
+                                                                    then false
+                                                                    else 
+                                                                    if b16
+                                                                    then false
+                                                                    else 
+                                                                    if b17
+                                                                    then false
+                                                                    else 
+                                                                    if b18
+                                                                    then false
+                                                                    else 
+                                                                    if b19
+                                                                    then 
+                                                                    if b20
+                                                                    then 
+                                                                    if b21
+                                                                    then 
+                                                                    if b22
+                                                                    then false
+                                                                    else 
+                                                                    (match s1 with
+                                                                    | [] ->
+                                                                    false
+                                                                    | a2::s2 ->
+                                                                    (* If this appears, you're using Ascii internals. Please don't *)
+ (fun f c ->
+  let n = Char.code c in
+  let h i = (n land (1 lsl i)) <> 0 in
+  f (h 0) (h 1) (h 2) (h 3) (h 4) (h 5) (h 6) (h 7))
+                                                                    (fun b23 b24 b25 b26 b27 b28 b29 b30 ->
+                                                                    if b23
+                                                                    then 
+                                                                    if b24
+                                                                    then 
+                                                                    if b25
+                                                                    then 
+                                                                    if b26
+                                                                    then 
+                                                                    if b27
+                                                                    then false
+                                                                    else 
+                                                                    if b28
+                                                                    then 
+                                                                    if b29
+                                                                    then 
+                                                                    if b30
+                                                                    then false
+                                                                    else 
+                                                                    (match s2 with
+                                                                    | [] ->
+                                                                    false
+                                                                    | a3::s3 ->
+                                                                    (* If this appears, you're using Ascii internals. Please don't *)
+ (fun f c ->
+  let n = Char.code c in
+  let h i = (n land (1 lsl i)) <> 0 in
+  f (h 0) (h 1) (h 2) (h 3) (h 4) (h 5) (h 6) (h 7))
+                                                                    (fun b31 b32 b33 b34 b35 b36 b37 b38 ->
+                                                                    if b31
+                                                                    then false
+                                                                    else 
+                                                                    if b32
+                                                                    then 
+                                                                    if b33
+                                                                    then false
+                                                                    else 
+                                                                    if b34
+                                                                    then false
+                                                                    else 
+                                                                    if b35
+                                                                    then 
+                                                                    if b36
+                                                                    then 
+                                                                    if b37
+                                                                    then 
+                                                                    if b38
+                                                                    then false
+                                                                    else 
+                                                                    (match s3 with
+                                                                    | [] ->
+                                                                    false
+                                                                    | a4::s4 ->
+                                                                    (* If this appears, you're using Ascii internals. Please don't *)
+ (fun f c ->
+  let n = Char.code c in
+  let h i = (n land (1 lsl i)) <> 0 in
+  f (h 0) (h 1) (h 2) (h 3) (h 4) (h 5) (h 6) (h 7))
+                                                                    (fun b39 b40 b41 b42 b43 b44 b45 b46 ->
+                                                                    if b39
+                                                                    then false
+                                                                    else 
+                                                                    if b40
+                                                                    then false
+                                                                    else 
+                                                                    if b41
+                                                                    then 
+                                                                    if b42
+                                                                    then false
+                                                                    else 
+                                                                    if b43
+                                                                    then 
+                                                                    if b44
+                                                                    then 
+                                                                    if b45
+                                                                    then 
+                                                                    if b46
+                                                                    then false
+                                                                    else 
+                                                                    (match s4 with
+                                                                    | [] ->
+                                                                    false
+                                                                    | a5::s5 ->
+                                                                    (* If this appears, you're using Ascii internals. Please don't *)
+ (fun f c ->
+  let n = Char.code c in
+  let h i = (n land (1 lsl i)) <> 0 in
+  f (h 0) (h 1) (h 2) (h 3) (h 4) (h 5) (h 6) (h 7))
+                                                                    (fun b47 b48 b49 b50 b51 b52 b53 b54 ->
+                                                                    if b47
+                                                                    then 
+                                                                    if b48
+                                                                    then 
+                                                                    if b49
+                                                                    then false
+                                                                    else 
+                                                                    if b50
+                                                                    then false
+                                                                    else 
+                                                                    if b51
+                                                                    then 
+                                                                    if b52
+                                                                    then false
+                                                                    else 
+                                                                    if b53
+                                                                    then 
+                                                                    if b54
+                                                                    then false
+                                                                    else 
+                                                                    (match s5 with
+                                                                    | [] ->
+                                                                    false
+                                                                    | a6::s6 ->
+                                                                    (* If this appears, you're using Ascii internals. Please don't *)
+ (fun f c ->
+  let n = Char.code c in
+  let h i = (n land (1 lsl i)) <> 0 in
+  f (h 0) (h 1) (h 2) (h 3) (h 4) (h 5) (h 6) (h 7))
+                                                                    (fun b55 b56 b57 b58 b59 b60 b61 b62 ->
+                                                                    if b55
+                                                                    then false
+                                                                    else 
+                                                                    if b56
+                                                                    then false
+                                                                    else 
+                                                                    if b57
+                                                                    then false
+                                                                    else 
+                                                                    if b58
+                                                                    then false
+                                                                    else 
+                                                                    if b59
+                                                                    then 
+                                                                    if b60
+                                                                    then 
+                                                                    if b61
+                                                                    then 
+                                                                    if b62
+                                                                    then false
+                                                                    else 
+                                                                    (match s6 with
+                                                                    | [] ->
+                                                                    false
+                                                                    | a7::s7 ->
+                                                                    (* If this appears, you're using Ascii internals. Please don't *)
+ (fun f c ->
+  let n = Char.code c in
+  let h i = (n land (1 lsl i)) <> 0 in
+  f (h 0) (h 1) (h 2) (h 3) (h 4) (h 5) (h 6) (h 7))
+                                                                    (fun b63 b64 b65 b66 b67 b68 b69 b70 ->
+                                                                    if b63
+                                                                    then 
+                                                                    if b64
+                                                                    then false
+                                                                    else 
+                                                                    if b65
+                                                                    then 
+                                                                    if b66
+                                                                    then false
+                                                                    else 
+                                                                    if b67
+                                                                    then false
+                                                                    else 
+                                                                    if b68
+                                                                    then 
+                                                                    if b69
+                                                                    then 
+                                                                    if b70
+                                                                    then false
+                                                                    else 
+                                                                    (match s7 with
+                                                                    | [] ->
+                                                                    false
+                                                                    | a8::s8 ->
+                                                                    (* If this appears, you're using Ascii internals. Please don't *)
+ (fun f c ->
+  let n = Char.code c in
+  let h i = (n land (1 lsl i)) <> 0 in
+  f (h 0) (h 1) (h 2) (h 3) (h 4) (h 5) (h 6) (h 7))
+                                                                    (fun b71 b72 b73 b74 b75 b76 b77 b78 ->
+                                                                    if b71
+                                                                    then 
+                                                                    if b72
+                                                                    then 
+                                                                    if b73
+                                                                    then false
+                                                                    else 
+                                                                    if b74
+                                                                    then false
+                                                                    else 
+                                                                    if b75
+                                                                    then false
+                                                                    else 
+                                                                    if b76
+                                                                    then 
+                                                                    if b77
+                                                                    then 
+                                                                    if b78
+                                                                    then false
+                                                                    else 
+                                                                    (match s8 with
+                                                                    | [] ->
+                                                                    false
+                                                                    | a9::s9 ->
+                                                                    (* If this appears, you're using Ascii internals. Please don't *)
+ (fun f c ->
+  let n = Char.code c in
+  let h i = (n land (1 lsl i)) <> 0 in
+  f (h 0) (h 1) (h 2) (h 3) (h 4) (h 5) (h 6) (h 7))
+                                                                    (fun b79 b80 b81 b82 b83 b84 b85 b86 ->
+                                                                    if b79
+                                                                    then 
+                                                                    if b80
+                                                                    then false
+                                                                    else 
+                                                                    if b81
+                                                                    then false
+                                                                    else 
+                                                                    if b82
+                                                                    then 
+                                                                    if b83
+                                                                    then false
+                                                                    else 
+                                                                    if b84
+                                                                    then 
+                                                                    if b85
+                                                                    then 
+                                                                    if b86
+                                                                    then false
+                                                                    else 
+                                                                    (match s9 with
+                                                                    | [] ->
+                                                                    false
+                                                                    | a10::s10 ->
+                                                                    (* If this appears, you're using Ascii internals. Please don't *)
+ (fun f c ->
+  let n = Char.code c in
+  let h i = (n land (1 lsl i)) <> 0 in
+  f (h 0) (h 1) (h 2) (h 3) (h 4) (h 5) (h 6) (h 7))
+                                                                    (fun b87 b88 b89 b90 b91 b92 b93 b94 ->
+                                                                    if b87
+                                                                    then false
+                                                                    else 
+                                                                    if b88
+                                                                    then 
+                                                                    if b89
+                                                                    then 
+                                                                    if b90
+                                                                    then false
+                                                                    else 
+                                                                    if b91
+                                                                    then false
+                                                                    else 
+                                                                    if b92
+                                                                    then 
+                                                                    if b93
+                                                                    then 
+                                                                    if b94
+                                                                    then false
+                                                                    else 
+                                                                    (match s10 with
+                                                                    | [] ->
+                                                                    false
+                                                                    | a11::s11 ->
+                                                                    (* If this appears, you're using Ascii internals. Please don't *)
+ (fun f c ->
+  let n = Char.code c in
+  let h i = (n land (1 lsl i)) <> 0 in
+  f (h 0) (h 1) (h 2) (h 3) (h 4) (h 5) (h 6) (h 7))
+                                                                    (fun b95 b96 b97 b98 b99 b100 b101 b102 ->
+                                                                    if b95
+                                                                    then 
+                                                                    if b96
+                                                                    then false
+                                                                    else 
+                                                                    if b97
+                                                                    then false
+                                                                    else 
+                                                                    if b98
+                                                                    then 
+                                                                    if b99
+                                                                    then false
+                                                                    else 
+                                                                    if b100
+                                                                    then 
+                                                                    if b101
+                                                                    then 
+                                                                    if b102
+                                                                    then false
+                                                                    else 
+                                                                    (match s11 with
+                                                                    | [] ->
+                                                                    false
+                                                                    | a12::s12 ->
+                                                                    (* If this appears, you're using Ascii internals. Please don't *)
+ (fun f c ->
+  let n = Char.code c in
+  let h i = (n land (1 lsl i)) <> 0 in
+  f (h 0) (h 1) (h 2) (h 3) (h 4) (h 5) (h 6) (h 7))
+                                                                    (fun b103 b104 b105 b106 b107 b108 b109 b110 ->
+                                                                    if b103
+                                                                    then 
+                                                                    if b104
+                                                                    then false
+                                                                    else 
+                                                                    if b105
+                                                                    then 
+                                                                    if b106
+                                                                    then false
+                                                                    else 
+                                                                    if b107
+                                                                    then false
+                                                                    else 
+                                                                    if b108
+                                                                    then 
+                                                                    if b109
+                                                                    then 
+                                                                    if b110
+                                                                    then false
+                                                                    else 
+                                                                    (match s12 with
+                                                                    | [] ->
+                                                                    false
+                                                                    | a13::s13 ->
+                                                                    (* If this appears, you're using Ascii internals. Please don't *)
+ (fun f c ->
+  let n = Char.code c in
+  let h i = (n land (1 lsl i)) <> 0 in
+  f (h 0) (h 1) (h 2) (h 3) (h 4) (h 5) (h 6) (h 7))
+                                                                    (fun b111 b112 b113 b114 b115 b116 b117 b118 ->
+                                                                    if b111
+                                                                    then false
+                                                                    else 
+                                                                    if b112
+                                                                    then 
+                                                                    if b113
+                                                                    then false
+                                                                    else 
+                                                                    if b114
+                                                                    then false
+                                                                    else 
+                                                                    if b115
+                                                                    then 
+                                                                    if b116
+                                                                    then 
+                                                                    if b117
+                                                                    then 
+                                                                    if b118
+                                                                    then false
+                                                                    else 
+                                                                    (match s13 with
+                                                                    | [] ->
+                                                                    true
+                                                                    | _::_ ->
+                                                                    false)
+                                                                    else false
+                                                                    else false
+                                                                    else false
+                                                                    else false)
+                                                                    a13)
+                                                                    else false
+                                                                    else false
+                                                                    else false
+                                                                    else false)
+                                                                    a12)
+                                                                    else false
+                                                                    else false
+                                                                    else false
+                                                                    else false)
+                                                                    a11)
+                                                                    else false
+                                                                    else false
+                                                                    else false
+                                                                    else false)
+                                                                    a10)
+                                                                    else false
+                                                                    else false
+                                                                    else false
+                                                                    else false)
+                                                                    a9)
+                                                                    else false
+                                                                    else false
+                                                                    else false
+                                                                    else false)
+                                                                    a8)
+                                                                    else false
+                                                                    else false
+                                                                    else false
+                                                                    else false)
+                                                                    a7)
+                                                                    else false
+                                                                    else false
+                                                                    else false)
+                                                                    a6)
+                                                                    else false
+                                                                    else false
+                                                                    else false
+                                                                    else 
+                                                                    if b48
+                                                                    then 
+                                                                    if b49
+                                                                    then 
+                                                                    if b50
+                                                                    then 
+                                                                    if b51
+                                                                    then false
+                                                                    else 
+                                                                    if b52
+                                                                    then false
+                                                                    else 
+                                                                    if b53
+                                                                    then 
+                                                                    if b54
+                                                                    then false
+                                                                    else 
+                                                                    (match s5 with
+                                                                    | [] ->
+                                                                    false
+                                                                    | a6::s6 ->
+                                                                    (* If this appears, you're using Ascii internals. Please don't *)
+ (fun f c ->
+  let n = Char.code c in
+  let h i = (n land (1 lsl i)) <> 0 in
+  f (h 0) (h 1) (h 2) (h 3) (h 4) (h 5) (h 6) (h 7))
+                                                                    (fun b55 b56 b57 b58 b59 b60 b61 b62 ->
+                                                                    if b55
+                                                                    then 
+                                                                    if b56
+                                                                    then false
+                                                                    else 
+                                                                    if b57
+                                                                    then false
+                                                                    else 
+                                                                    if b58
+                                                                    then false
+                                                                    else 
+                                                                    if b59
+                                                                    then false
+                                                                    else 
+                                                                    if b60
+                                                                    then 
+                                                                    if b61
+                                                                    then 
+                                                                    if b62
+                                                                    then false
+                                                                    else 
+                                                                    (match s6 with
+                                                                    | [] ->
+                                                                    false
+                                                                    | a7::s7 ->
+                                                                    (* If this appears, you're using Ascii internals. Please don't *)
+ (fun f c ->
+  let n = Char.code c in
+  let h i = (n land (1 lsl i)) <> 0 in
+  f (h 0) (h 1) (h 2) (h 3) (h 4) (h 5) (h 6) (h 7))
+                                                                    (fun b63 b64 b65 b66 b67 b68 b69 b70 ->
+                                                                    if b63
+                                                                    then 
+                                                                    if b64
+                                                                    then false
+                                                                    else 
+                                                                    if b65
+                                                                    then 
+                                                                    if b66
+                                                                    then 
+                                                                    if b67
+                                                                    then false
+                                                                    else 
+                                                                    if b68
+                                                                    then 
+                                                                    if b69
+                                                                    then 
+                                                                    if b70
+                                                                    then false
+                                                                    else 
+                                                                    (match s7 with
+                                                                    | [] ->
+                                                                    false
+                                                                    | a8::s8 ->
+                                                                    (* If this appears, you're using Ascii internals. Please don't *)
+ (fun f c ->
+  let n = Char.code c in
+  let h i = (n land (1 lsl i)) <> 0 in
+  f (h 0) (h 1) (h 2) (h 3) (h 4) (h 5) (h 6) (h 7))
+                                                                    (fun b71 b72 b73 b74 b75 b76 b77 b78 ->
+                                                                    if b71
+                                                                    then 
+                                                                    if b72
+                                                                    then false
+                                                                    else 
+                                                                    if b73
+                                                                    then 
+                                                                    if b74
+                                                                    then false
+                                                                    else 
+                                                                    if b75
+                                                                    then false
+                                                                    else 
+                                                                    if b76
+                                                                    then 
+                                                                    if b77
+                                                                    then 
+                                                                    if b78
+                                                                    then false
+                                                                    else 
+                                                                    (match s8 with
+                                                                    | [] ->
+                                                                    false
+                                                                    | a9::s9 ->
+                                                                    (* If this appears, you're using Ascii internals. Please don't *)
+ (fun f c ->
+  let n = Char.code c in
+  let h i = (n land (1 lsl i)) <> 0 in
+  f (h 0) (h 1) (h 2) (h 3) (h 4) (h 5) (h 6) (h 7))
+                                                                    (fun b79 b80 b81 b82 b83 b84 b85 b86 ->
+                                                                    if b79
+                                                                    then 
+                                                                    if b80
+                                                                    then 
+                                                                    if b81
+                                                                    then false
+                                                                    else 
+                                                                    if b82
+                                                                    then false
+                                                                    else 
+                                                                    if b83
+                                                                    then 
+                                                                    if b84
+                                                                    then 
+                                                                    if b85
+                                                                    then 
+                                                                    if b86
+                                                                    then false
+                                                                    else 
+                                                                    (match s9 with
+                                                                    | [] ->
+                                                                    false
+                                                                    | a10::s10 ->
+                                                                    (* If this appears, you're using Ascii internals. Please don't *)
+ (fun f c ->
+  let n = Char.code c in
+  let h i = (n land (1 lsl i)) <> 0 in
+  f (h 0) (h 1) (h 2) (h 3) (h 4) (h 5) (h 6) (h 7))
+                                                                    (fun b87 b88 b89 b90 b91 b92 b93 b94 ->
+                                                                    if b87
+                                                                    then false
+                                                                    else 
+                                                                    if b88
+                                                                    then false
+                                                                    else 
+                                                                    if b89
+                                                                    then false
+                                                                    else 
+                                                                    if b90
+                                                                    then false
+                                                                    else 
+                                                                    if b91
+                                                                    then 
+                                                                    if b92
+                                                                    then 
+                                                                    if b93
+                                                                    then 
+                                                                    if b94
+                                                                    then false
+                                                                    else 
+                                                                    (match s10 with
+                                                                    | [] ->
+                                                                    false
+                                                                    | a11::s11 ->
+                                                                    (* If this appears, you're using Ascii internals. Please don't *)
+ (fun f c ->
+  let n = Char.code c in
+  let h i = (n land (1 lsl i)) <> 0 in
+  f (h 0) (h 1) (h 2) (h 3) (h 4) (h 5) (h 6) (h 7))
+                                                                    (fun b95 b96 b97 b98 b99 b100 b101 b102 ->
+                                                                    if b95
+                                                                    then 
+                                                                    if b96
+                                                                    then false
+                                                                    else 
+                                                                    if b97
+                                                                    then false
+                                                                    else 
+                                                                    if b98
+                                                                    then false
+                                                                    else 
+                                                                    if b99
+                                                                    then false
+                                                                    else 
+                                                                    if b100
+                                                                    then 
+                                                                    if b101
+                                                                    then 
+                                                                    if b102
+                                                                    then false
+                                                                    else 
+                                                                    (match s11 with
+                                                                    | [] ->
+                                                                    false
+                                                                    | a12::s12 ->
+                                                                    (* If this appears, you're using Ascii internals. Please don't *)
+ (fun f c ->
+  let n = Char.code c in
+  let h i = (n land (1 lsl i)) <> 0 in
+  f (h 0) (h 1) (h 2) (h 3) (h 4) (h 5) (h 6) (h 7))
+                                                                    (fun b103 b104 b105 b106 b107 b108 b109 b110 ->
+                                                                    if b103
+                                                                    then 
+                                                                    if b104
+                                                                    then 
+                                                                    if b105
+                                                                    then false
+                                                                    else 
+                                                                    if b106
+                                                                    then false
+                                                                    else 
+                                                                    if b107
+                                                                    then false
+                                                                    else 
+                                                                    if b108
+                                                                    then 
+                                                                    if b109
+                                                                    then 
+                                                                    if b110
+                                                                    then false
+                                                                    else 
+                                                                    (match s12 with
+                                                                    | [] ->
+                                                                    false
+                                                                    | a13::s13 ->
+                                                                    (* If this appears, you're using Ascii internals. Please don't *)
+ (fun f c ->
+  let n = Char.code c in
+  let h i = (n land (1 lsl i)) <> 0 in
+  f (h 0) (h 1) (h 2) (h 3) (h 4) (h 5) (h 6) (h 7))
+                                                                    (fun b111 b112 b113 b114 b115 b116 b117 b118 ->
+                                                                    if b111
+                                                                    then 
+                                                                    if b112
+                                                                    then false
+                                                                    else 
+                                                                    if b113
+                                                                    then 
+                                                                    if b114
+                                                                    then false
+                                                                    else 
+                                                                    if b115
+                                                                    then false
+                                                                    else 
+                                                                    if b116
+                                                                    then 
+                                                                    if b117
+                                                                    then 
+                                                                    if b118
+                                                                    then false
+                                                                    else 
+                                                                    (match s13 with
+                                                                    | [] ->
+                                                                    false
+                                                                    | a14::s14 ->
+                                                                    (* If this appears, you're using Ascii internals. Please don't *)
+ (fun f c ->
+  let n = Char.code c in
+  let h i = (n land (1 lsl i)) <> 0 in
+  f (h 0) (h 1) (h 2) (h 3) (h 4) (h 5) (h 6) (h 7))
+                                                                    (fun b119 b120 b121 b122 b123 b124 b125 b126 ->
+                                                                    if b119
+                                                                    then 
+                                                                    if b120
+                                                                    then 
+                                                                    if b121
+                                                                    then false
+                                                                    else 
+                                                                    if b122
+                                                                    then false
+                                                                    else 
+                                                                    if b123
+                                                                    then 
+                                                                    if b124
+                                                                    then false
+                                                                    else 
+                                                                    if b125
+                                                                    then 
+                                                                    if b126
+                                                                    then false
+                                                                    else 
+                                                                    (match s14 with
+                                                                    | [] ->
+                                                                    false
+                                                                    | a15::s15 ->
+                                                                    (* If this appears, you're using Ascii internals. Please don't *)
+ (fun f c ->
+  let n = Char.code c in
+  let h i = (n land (1 lsl i)) <> 0 in
+  f (h 0) (h 1) (h 2) (h 3) (h 4) (h 5) (h 6) (h 7))
+                                                                    (fun b127 b128 b129 b130 b131 b132 b133 b134 ->
+                                                                    if b127
+                                                                    then false
+                                                                    else 
+                                                                    if b128
+                                                                    then false
+                                                                    else 
+                                                                    if b129
+                                                                    then false
+                                                                    else 
+                                                                    if b130
+                                                                    then false
+                                                                    else 
+                                                                    if b131
+                                                                    then 
+                                                                    if b132
+                                                                    then 
+                                                                    if b133
+                                                                    then 
+                                                                    if b134
+                                                                    then false
+                                                                    else 
+                                                                    (match s15 with
+                                                                    | [] ->
+                                                                    false
+                                                                    | a16::s16 ->
+                                                                    (* If this appears, you're using Ascii internals. Please don't *)
+ (fun f c ->
+  let n = Char.code c in
+  let h i = (n land (1 lsl i)) <> 0 in
+  f (h 0) (h 1) (h 2) (h 3) (h 4) (h 5) (h 6) (h 7))
+                                                                    (fun b135 b136 b137 b138 b139 b140 b141 b142 ->
+                                                                    if b135
+                                                                    then 
+                                                                    if b136
+                                                                    then false
+                                                                    else 
+                                                                    if b137
+                                                                    then 
+                                                                    if b138
+                                                                    then false
+                                                                    else 
+                                                                    if b139
+                                                                    then false
+                                                                    else 
+                                                                    if b140
+                                                                    then 
+                                                                    if b141
+                                                                    then 
+                                                                    if b142
+                                                                    then false
+                                                                    else 
+                                                                    (match s16 with
+                                                                    | [] ->
+                                                                    false
+                                                                    | a17::s17 ->
+                                                                    (* If this appears, you're using Ascii internals. Please don't *)
+ (fun f c ->
+  let n = Char.code c in
+  let h i = (n land (1 lsl i)) <> 0 in
+  f (h 0) (h 1) (h 2) (h 3) (h 4) (h 5) (h 6) (h 7))
+                                                                    (fun b143 b144 b145 b146 b147 b148 b149 b150 ->
+                                                                    if b143
+                                                                    then 
+                                                                    if b144
+                                                                    then 
+                                                                    if b145
+                                                                    then false
+                                                                    else 
+                                                                    if b146
+                                                                    then false
+                                                                    else 
+                                                                    if b147
+                                                                    then false
+                                                                    else 
+                                                                    if b148
+                                                                    then 
+                                                                    if b149
+                                                                    then 
+                                                                    if b150
+                                                                    then false
+                                                                    else 
+                                                                    (match s17 with
+                                                                    | [] ->
+                                                                    false
+                                                                    | a18::s18 ->
+                                                                    (* If this appears, you're using Ascii internals. Please don't *)
+ (fun f c ->
+  let n = Char.code c in
+  let h i = (n land (1 lsl i)) <> 0 in
+  f (h 0) (h 1) (h 2) (h 3) (h 4) (h 5) (h 6) (h 7))
+                                                                    (fun b151 b152 b153 b154 b155 b156 b157 b158 ->
+                                                                    if b151
+                                                                    then 
+                                                                    if b152
+                                                                    then false
+                                                                    else 
+                                                                    if b153
+                                                                    then false
+                                                                    else 
+                                                                    if b154
+                                                                    then 
+                                                                    if b155
+                                                                    then false
+                                                                    else 
+                                                                    if b156
+                                                                    then 
+                                                                    if b157
+                                                                    then 
+                                                                    if b158
+                                                                    then false
+                                                                    else 
+                                                                    (match s18 with
+                                                                    | [] ->
+                                                                    false
+                                                                    | a19::s19 ->
+                                                                    (* If this appears, you're using Ascii internals. Please don't *)
+ (fun f c ->
+  let n = Char.code c in
+  let h i = (n land (1 lsl i)) <> 0 in
+  f (h 0) (h 1) (h 2) (h 3) (h 4) (h 5) (h 6) (h 7))
+                                                                    (fun b159 b160 b161 b162 b163 b164 b165 b166 ->
+                                                                    if b159
+                                                                    then false
+                                                                    else 
+                                                                    if b160
+                                                                    then 
+                                                                    if b161
+                                                                    then 
+                                                                    if b162
+                                                                    then false
+                                                                    else 
+                                                                    if b163
+                                                                    then false
+                                                                    else 
+                                                                    if b164
+                                                                    then 
+                                                                    if b165
+                                                                    then 
+                                                                    if b166
+                                                                    then false
+                                                                    else 
+                                                                    (match s19 with
+                                                                    | [] ->
+                                                                    false
+                                                                    | a20::s20 ->
+                                                                    (* If this appears, you're using Ascii internals. Please don't *)
+ (fun f c ->
+  let n = Char.code c in
+  let h i = (n land (1 lsl i)) <> 0 in
+  f (h 0) (h 1) (h 2) (h 3) (h 4) (h 5) (h 6) (h 7))
+                                                                    (fun b167 b168 b169 b170 b171 b172 b173 b174 ->
+                                                                    if b167
+                                                                    then 
+                                                                    if b168
+                                                                    then false
+                                                                    else 
+                                                                    if b169
+                                                                    then false
+                                                                    else 
+                                                                    if b170
+                                                                    then 
+                                                                    if b171
+                                                                    then false
+                                                                    else 
+                                                                    if b172
+                                                                    then 
+                                                                    if b173
+                                                                    then 
+                                                                    if b174
+                                                                    then false
+                                                                    else 
+                                                                    (match s20 with
+                                                                    | [] ->
+                                                                    false
+                                                                    | a21::s21 ->
+                                                                    (* If this appears, you're using Ascii internals. Please don't *)
+ (fun f c ->
+  let n = Char.code c in
+  let h i = (n land (1 lsl i)) <> 0 in
+  f (h 0) (h 1) (h 2) (h 3) (h 4) (h 5) (h 6) (h 7))
+                                                                    (fun b175 b176 b177 b178 b179 b180 b181 b182 ->
+                                                                    if b175
+                                                                    then 
+                                                                    if b176
+                                                                    then false
+                                                                    else 
+                                                                    if b177
+                                                                    then 
+                                                                    if b178
+                                                                    then false
+                                                                    else 
+                                                                    if b179
+                                                                    then false
+                                                                    else 
+                                                                    if b180
+                                                                    then 
+                                                                    if b181
+                                                                    then 
+                                                                    if b182
+                                                                    then false
+                                                                    else 
+                                                                    (match s21 with
+                                                                    | [] ->
+                                                                    false
+                                                                    | a22::s22 ->
+                                                                    (* If this appears, you're using Ascii internals. Please don't *)
+ (fun f c ->
+  let n = Char.code c in
+  let h i = (n land (1 lsl i)) <> 0 in
+  f (h 0) (h 1) (h 2) (h 3) (h 4) (h 5) (h 6) (h 7))
+                                                                    (fun b183 b184 b185 b186 b187 b188 b189 b190 ->
+                                                                    if b183
+                                                                    then false
+                                                                    else 
+                                                                    if b184
+                                                                    then 
+                                                                    if b185
+                                                                    then false
+                                                                    else 
+                                                                    if b186
+                                                                    then false
+                                                                    else 
+                                                                    if b187
+                                                                    then 
+                                                                    if b188
+                                                                    then 
+                                                                    if b189
+                                                                    then 
+                                                                    if b190
+                                                                    then false
+                                                                    else 
+                                                                    (match s22 with
+                                                                    | [] ->
+                                                                    true
+                                                                    | _::_ ->
+                                                                    false)
+                                                                    else false
+                                                                    else false
+                                                                    else false
+                                                                    else false)
+                                                                    a22)
+                                                                    else false
+                                                                    else false
+                                                                    else false
+                                                                    else false)
+                                                                    a21)
+                                                                    else false
+                                                                    else false
+                                                                    else false
+                                                                    else false)
+                                                                    a20)
+                                                                    else false
+                                                                    else false
+                                                                    else false
+                                                                    else false)
+                                                                    a19)
+                                                                    else false
+                                                                    else false
+                                                                    else false
+                                                                    else false)
+                                                                    a18)
+                                                                    else false
+                                                                    else false
+                                                                    else false
+                                                                    else false)
+                                                                    a17)
+                                                                    else false
+                                                                    else false
+                                                                    else false
+                                                                    else false)
+                                                                    a16)
+                                                                    else false
+                                                                    else false
+                                                                    else false)
+                                                                    a15)
+                                                                    else false
+                                                                    else false
+                                                                    else false
+                                                                    else false)
+                                                                    a14)
+                                                                    else false
+                                                                    else false
+                                                                    else false
+                                                                    else false)
+                                                                    a13)
+                                                                    else false
+                                                                    else false
+                                                                    else false
+                                                                    else false)
+                                                                    a12)
+                                                                    else false
+                                                                    else false
+                                                                    else false)
+                                                                    a11)
+                                                                    else false
+                                                                    else false
+                                                                    else false)
+                                                                    a10)
+                                                                    else false
+                                                                    else false
+                                                                    else false
+                                                                    else false
+                                                                    else false)
+                                                                    a9)
+                                                                    else false
+                                                                    else false
+                                                                    else false
+                                                                    else false)
+                                                                    a8)
+                                                                    else false
+                                                                    else false
+                                                                    else false
+                                                                    else false
+                                                                    else false)
+                                                                    a7)
+                                                                    else false
+                                                                    else false
+                                                                    else false)
+                                                                    a6)
+                                                                    else false
+                                                                    else false
+                                                                    else false
+                                                                    else 
+                                                                    if b49
+                                                                    then 
+                                                                    if b50
+                                                                    then false
+                                                                    else 
+                                                                    if b51
+                                                                    then false
+                                                                    else 
+                                                                    if b52
+                                                                    then false
+                                                                    else 
+                                                                    if b53
+                                                                    then 
+                                                                    if b54
+                                                                    then false
+                                                                    else 
+                                                                    (match s5 with
+                                                                    | [] ->
+                                                                    false
+                                                                    | a6::s6 ->
+                                                                    (* If this appears, you're using Ascii internals. Please don't *)
+ (fun f c ->
+  let n = Char.code c in
+  let h i = (n land (1 lsl i)) <> 0 in
+  f (h 0) (h 1) (h 2) (h 3) (h 4) (h 5) (h 6) (h 7))
+                                                                    (fun b55 b56 b57 b58 b59 b60 b61 b62 ->
+                                                                    if b55
+                                                                    then 
+                                                                    if b56
+                                                                    then false
+                                                                    else 
+                                                                    if b57
+                                                                    then 
+                                                                    if b58
+                                                                    then false
+                                                                    else 
+                                                                    if b59
+                                                                    then false
+                                                                    else 
+                                                                    if b60
+                                                                    then 
+                                                                    if b61
+                                                                    then 
+                                                                    if b62
+                                                                    then false
+                                                                    else 
+                                                                    (match s6 with
+                                                                    | [] ->
+                                                                    false
+                                                                    | a7::s7 ->
+                                                                    (* If this appears, you're using Ascii internals. Please don't *)
+ (fun f c ->
+  let n = Char.code c in
+  let h i = (n land (1 lsl i)) <> 0 in
+  f (h 0) (h 1) (h 2) (h 3) (h 4) (h 5) (h 6) (h 7))
+                                                                    (fun b63 b64 b65 b66 b67 b68 b69 b70 ->
+                                                                    if b63
+                                                                    then false
+                                                                    else 
+                                                                    if b64
+                                                                    then 
+                                                                    if b65
+                                                                    then 
+                                                                    if b66
+                                                                    then false
+                                                                    else 
+                                                                    if b67
+                                                                    then false
+                                                                    else 
+                                                                    if b68
+                                                                    then 
+                                                                    if b69
+                                                                    then 
+                                                                    if b70
+                                                                    then false
+                                                                    else 
+                                                                    (match s7 with
+                                                                    | [] ->
+                                                                    false
+                                                                    | a8::s8 ->
+                                                                    (* If this appears, you're using Ascii internals. Please don't *)
+ (fun f c ->
+  let n = Char.code c in
+  let h i = (n land (1 lsl i)) <> 0 in
+  f (h 0) (h 1) (h 2) (h 3) (h 4) (h 5) (h 6) (h 7))
+                                                                    (fun b71 b72 b73 b74 b75 b76 b77 b78 ->
+                                                                    if b71
+                                                                    then 
+                                                                    if b72
+                                                                    then false
+                                                                    else 
+                                                                    if b73
+                                                                    then false
+                                                                    else 
+                                                                    if b74
+                                                                    then false
+                                                                    else 
+                                                                    if b75
+                                                                    then false
+                                                                    else 
+                                                                    if b76
+                                                                    then 
+                                                                    if b77
+                                                                    then 
+                                                                    if b78
+                                                                    then false
+                                                                    else 
+                                                                    (match s8 with
+                                                                    | [] ->
+                                                                    false
+                                                                    | a9::s9 ->
+                                                                    (* If this appears, you're using Ascii internals. Please don't *)
+ (fun f c ->
+  let n = Char.code c in
+  let h i = (n land (1 lsl i)) <> 0 in
+  f (h 0) (h 1) (h 2) (h 3) (h 4) (h 5) (h 6) (h 7))
+                                                                    (fun b79 b80 b81 b82 b83 b84 b85 b86 ->
+                                                                    if b79
+                                                                    then 
+                                                                    if b80
+                                                                    then false
+                                                                    else 
+                                                                    if b81
+                                                                    then 
+                                                                    if b82
+                                                                    then false
+                                                                    else 
+                                                                    if b83
+                                                                    then 
+                                                                    if b84
+                                                                    then 
+                                                                    if b85
+                                                                    then 
+                                                                    if b86
+                                                                    then false
+                                                                    else 
+                                                                    (match s9 with
+                                                                    | [] ->
+                                                                    false
+                                                                    | a10::s10 ->
+                                                                    (* If this appears, you're using Ascii internals. Please don't *)
+ (fun f c ->
+  let n = Char.code c in
+  let h i = (n land (1 lsl i)) <> 0 in
+  f (h 0) (h 1) (h 2) (h 3) (h 4) (h 5) (h 6) (h 7))
+                                                                    (fun b87 b88 b89 b90 b91 b92 b93 b94 ->
+                                                                    if b87
+                                                                    then false
+                                                                    else 
+                                                                    if b88
+                                                                    then false
+                                                                    else 
+                                                                    if b89
+                                                                    then 
+                                                                    if b90
+                                                                    then 
+                                                                    if b91
+                                                                    then false
+                                                                    else 
+                                                                    if b92
+                                                                    then 
+                                                                    if b93
+                                                                    then 
+                                                                    if b94
+                                                                    then false
+                                                                    else 
+                                                                    (match s10 with
+                                                                    | [] ->
+                                                                    false
+                                                                    | a11::s11 ->
+                                                                    (* If this appears, you're using Ascii internals. Please don't *)
+ (fun f c ->
+  let n = Char.code c in
+  let h i = (n land (1 lsl i)) <> 0 in
+  f (h 0) (h 1) (h 2) (h 3) (h 4) (h 5) (h 6) (h 7))
+                                                                    (fun b95 b96 b97 b98 b99 b100 b101 b102 ->
+                                                                    if b95
+                                                                    then false
+                                                                    else 
+                                                                    if b96
+                                                                    then false
+                                                                    else 
+                                                                    if b97
+                                                                    then 
+                                                                    if b98
+                                                                    then false
+                                                                    else 
+                                                                    if b99
+                                                                    then 
+                                                                    if b100
+                                                                    then 
+                                                                    if b101
+                                                                    then 
+                                                                    if b102
+                                                                    then false
+                                                                    else 
+                                                                    (match s11 with
+                                                                    | [] ->
+                                                                    false
+                                                                    | a12::s12 ->
+                                                                    (* If this appears, you're using Ascii internals. Please don't *)
+ (fun f c ->
+  let n = Char.code c in
+  let h i = (n land (1 lsl i)) <> 0 in
+  f (h 0) (h 1) (h 2) (h 3) (h 4) (h 5) (h 6) (h 7))
+                                                                    (fun b103 b104 b105 b106 b107 b108 b109 b110 ->
+                                                                    if b103
+                                                                    then 
+                                                                    if b104
+                                                                    then 
+                                                                    if b105
+                                                                    then false
+                                                                    else 
+                                                                    if b106
+                                                                    then false
+                                                                    else 
+                                                                    if b107
+                                                                    then 
+                                                                    if b108
+                                                                    then false
+                                                                    else 
+                                                                    if b109
+                                                                    then 
+                                                                    if b110
+                                                                    then false
+                                                                    else 
+                                                                    (match s12 with
+                                                                    | [] ->
+                                                                    false
+                                                                    | a13::s13 ->
+                                                                    (* If this appears, you're using Ascii internals. Please don't *)
+ (fun f c ->
+  let n = Char.code c in
+  let h i = (n land (1 lsl i)) <> 0 in
+  f (h 0) (h 1) (h 2) (h 3) (h 4) (h 5) (h 6) (h 7))
+                                                                    (fun b111 b112 b113 b114 b115 b116 b117 b118 ->
+                                                                    if b111
+                                                                    then false
+                                                                    else 
+                                                                    if b112
+                                                                    then false
+                                                                    else 
+                                                                    if b113
+                                                                    then false
+                                                                    else 
+                                                                    if b114
+                                                                    then false
+                                                                    else 
+                                                                    if b115
+                                                                    then 
+                                                                    if b116
+                                                                    then 
+                                                                    if b117
+                                                                    then 
+                                                                    if b118
+                                                                    then false
+                                                                    else 
+                                                                    (match s13 with
+                                                                    | [] ->
+                                                                    false
+                                                                    | a14::s14 ->
+                                                                    (* If this appears, you're using Ascii internals. Please don't *)
+ (fun f c ->
+  let n = Char.code c in
+  let h i = (n land (1 lsl i)) <> 0 in
+  f (h 0) (h 1) (h 2) (h 3) (h 4) (h 5) (h 6) (h 7))
+                                                                    (fun b119 b120 b121 b122 b123 b124 b125 b126 ->
+                                                                    if b119
+                                                                    then 
+                                                                    if b120
+                                                                    then false
+                                                                    else 
+                                                                    if b121
+                                                                    then 
+                                                                    if b122
+                                                                    then false
+                                                                    else 
+                                                                    if b123
+                                                                    then false
+                                                                    else 
+                                                                    if b124
+                                                                    then 
+                                                                    if b125
+                                                                    then 
+                                                                    if b126
+                                                                    then false
+                                                                    else 
+                                                                    (match s14 with
+                                                                    | [] ->
+                                                                    false
+                                                                    | a15::s15 ->
+                                                                    (* If this appears, you're using Ascii internals. Please don't *)
+ (fun f c ->
+  let n = Char.code c in
+  let h i = (n land (1 lsl i)) <> 0 in
+  f (h 0) (h 1) (h 2) (h 3) (h 4) (h 5) (h 6) (h 7))
+                                                                    (fun b127 b128 b129 b130 b131 b132 b133 b134 ->
+                                                                    if b127
+                                                                    then 
+                                                                    if b128
+                                                                    then 
+                                                                    if b129
+                                                                    then false
+                                                                    else 
+                                                                    if b130
+                                                                    then false
+                                                                    else 
+                                                                    if b131
+                                                                    then false
+                                                                    else 
+                                                                    if b132
+                                                                    then 
+                                                                    if b133
+                                                                    then 
+                                                                    if b134
+                                                                    then false
+                                                                    else 
+                                                                    (match s15 with
+                                                                    | [] ->
+                                                                    false
+                                                                    | a16::s16 ->
+                                                                    (* If this appears, you're using Ascii internals. Please don't *)
+ (fun f c ->
+  let n = Char.code c in
+  let h i = (n land (1 lsl i)) <> 0 in
+  f (h 0) (h 1) (h 2) (h 3) (h 4) (h 5) (h 6) (h 7))
+                                                                    (fun b135 b136 b137 b138 b139 b140 b141 b142 ->
+                                                                    if b135
+                                                                    then 
+                                                                    if b136
+                                                                    then false
+                                                                    else 
+                                                                    if b137
+                                                                    then false
+                                                                    else 
+                                                                    if b138
+                                                                    then 
+                                                                    if b139
+                                                                    then false
+                                                                    else 
+                                                                    if b140
+                                                                    then 
+                                                                    if b141
+                                                                    then 
+                                                                    if b142
+                                                                    then false
+                                                                    else 
+                                                                    (match s16 with
+                                                                    | [] ->
+                                                                    false
+                                                                    | a17::s17 ->
+                                                                    (* If this appears, you're using Ascii internals. Please don't *)
+ (fun f c ->
+  let n = Char.code c in
+  let h i = (n land (1 lsl i)) <> 0 in
+  f (h 0) (h 1) (h 2) (h 3) (h 4) (h 5) (h 6) (h 7))
+                                                                    (fun b143 b144 b145 b146 b147 b148 b149 b150 ->
+                                                                    if b143
+                                                                    then false
+                                                                    else 
+                                                                    if b144
+                                                                    then 
+                                                                    if b145
+                                                                    then 
+                                                                    if b146
+                                                                    then false
+                                                                    else 
+                                                                    if b147
+                                                                    then false
+                                                                    else 
+                                                                    if b148
+                                                                    then 
+                                                                    if b149
+                                                                    then 
+                                                                    if b150
+                                                                    then false
+                                                                    else 
+                                                                    (match s17 with
+                                                                    | [] ->
+                                                                    false
+                                                                    | a18::s18 ->
+                                                                    (* If this appears, you're using Ascii internals. Please don't *)
+ (fun f c ->
+  let n = Char.code c in
+  let h i = (n land (1 lsl i)) <> 0 in
+  f (h 0) (h 1) (h 2) (h 3) (h 4) (h 5) (h 6) (h 7))
+                                                                    (fun b151 b152 b153 b154 b155 b156 b157 b158 ->
+                                                                    if b151
+                                                                    then 
+                                                                    if b152
+                                                                    then false
+                                                                    else 
+                                                                    if b153
+                                                                    then false
+                                                                    else 
+                                                                    if b154
+                                                                    then 
+                                                                    if b155
+                                                                    then false
+                                                                    else 
+                                                                    if b156
+                                                                    then 
+                                                                    if b157
+                                                                    then 
+                                                                    if b158
+                                                                    then false
+                                                                    else 
+                                                                    (match s18 with
+                                                                    | [] ->
+                                                                    false
+                                                                    | a19::s19 ->
+                                                                    (* If this appears, you're using Ascii internals. Please don't *)
+ (fun f c ->
+  let n = Char.code c in
+  let h i = (n land (1 lsl i)) <> 0 in
+  f (h 0) (h 1) (h 2) (h 3) (h 4) (h 5) (h 6) (h 7))
+                                                                    (fun b159 b160 b161 b162 b163 b164 b165 b166 ->
+                                                                    if b159
+                                                                    then 
+                                                                    if b160
+                                                                    then false
+                                                                    else 
+                                                                    if b161
+                                                                    then 
+                                                                    if b162
+                                                                    then false
+                                                                    else 
+                                                                    if b163
+                                                                    then false
+                                                                    else 
+                                                                    if b164
+                                                                    then 
+                                                                    if b165
+                                                                    then 
+                                                                    if b166
+                                                                    then false
+                                                                    else 
+                                                                    (match s19 with
+                                                                    | [] ->
+                                                                    false
+                                                                    | a20::s20 ->
+                                                                    (* If this appears, you're using Ascii internals. Please don't *)
+ (fun f c ->
+  let n = Char.code c in
+  let h i = (n land (1 lsl i)) <> 0 in
+  f (h 0) (h 1) (h 2) (h 3) (h 4) (h 5) (h 6) (h 7))
+                                                                    (fun b167 b168 b169 b170 b171 b172 b173 b174 ->
+                                                                    if b167
+                                                                    then false
+                                                                    else 
+                                                                    if b168
+                                                                    then 
+                                                                    if b169
+                                                                    then false
+                                                                    else 
+                                                                    if b170
+                                                                    then false
+                                                                    else 
+                                                                    if b171
+                                                                    then 
+                                                                    if b172
+                                                                    then 
+                                                                    if b173
+                                                                    then 
+                                                                    if b174
+                                                                    then false
+                                                                    else 
+                                                                    (match s20 with
+                                                                    | [] ->
+                                                                    true
+                                                                    | _::_ ->
+                                                                    false)
+                                                                    else false
+                                                                    else false
+                                                                    else false
+                                                                    else false)
+                                                                    a20)
+                                                                    else false
+                                                                    else false
+                                                                    else false
+                                                                    else false)
+                                                                    a19)
+                                                                    else false
+                                                                    else false
+                                                                    else false
+                                                                    else false)
+                                                                    a18)
+                                                                    else false
+                                                                    else false
+                                                                    else false
+                                                                    else false)
+                                                                    a17)
+                                                                    else false
+                                                                    else false
+                                                                    else false
+                                                                    else false)
+                                                                    a16)
+                                                                    else false
+                                                                    else false
+                                                                    else false
+                                                                    else false)
+                                                                    a15)
+                                                                    else false
+                                                                    else false
+                                                                    else false
+                                                                    else false)
+                                                                    a14)
+                                                                    else false
+                                                                    else false
+                                                                    else false)
+                                                                    a13)
+                                                                    else false
+                                                                    else false
+                                                                    else false
+                                                                    else false)
+                                                                    a12)
+                                                                    else false
+                                                                    else false
+                                                                    else false
+                                                                    else false)
+                                                                    a11)
+                                                                    else false
+                                                                    else false
+                                                                    else false
+                                                                    else false)
+                                                                    a10)
+                                                                    else false
+                                                                    else false
+                                                                    else false
+                                                                    else false
+                                                                    else false)
+                                                                    a9)
+                                                                    else false
+                                                                    else false
+                                                                    else false)
+                                                                    a8)
+                                                                    else false
+                                                                    else false
+                                                                    else false
+                                                                    else false)
+                                                                    a7)
+                                                                    else false
+                                                                    else false
+                                                                    else false
+                                                                    else false)
+                                                                    a6)
+                                                                    else false
+                                                                    else false)
+                                                                    a5)
+                                                                    else false
+                                                                    else false
+                                                                    else false
+                                                                    else false)
+                                                                    a4)
+                                                                    else false
+                                                                    else false
+                                                                    else false
+                                                                    else false)
+                                                                    a3)
+                                                                    else false
+                                                                    else false
+                                                                    else false
+                                                                    else false
+                                                                    else false
+                                                                    else false)
+                                                                    a2)
+                                                                    else false
+                                                                    else false
+                                                                    else false)
+                                                                    a1)
+                                                                    else false
+                                                                    else false
+                                                                    else false
+                                                                    else false)
+                                                            a0)
+                                             else false
+                         else if b2
+                              then if b3
+                                   then false
+                                   else if b4
+                                        then false
+                                        else if b5
+                                             then if b6
+                                                  then false
+                                                  else (match s with
+                                                        | [] -> false
+                                                        | a0::s0 ->
+                                                          (* If this appears, you're using Ascii internals. Please don't *)
+ (fun f c ->
+  let n = Char.code c in
+  let h i = (n land (1 lsl i)) <> 0 in
+  f (h 0) (h 1) (h 2) (h 3) (h 4) (h 5) (h 6) (h 7))
+                                                            (fun b7 b8 b9 b10 b11 b12 b13 b14 ->
+                                                            if b7
+                                                            then if b8
+                                                                 then false
+                                                                 else 
+                                                                   if b9
+                                                                   then 
+                                                                    if b10
+                                                                    then 
+                                                                    if b11
+                                                                    then false
+                                                                    else 
+                                                                    if b12
+                                                                    then 
+                                                                    if b13
+                                                                    then 
+                                                                    if b14
+                                                                    then false
+                                                                    else 
+                                                                    (match s0 with
+                                                                    | [] ->
+                                                                    false
+                                                                    | a1::s1 ->
+                                                                    (* If this appears, you're using Ascii internals. Please don't *)
+ (fun f c ->
+  let n = Char.code c in
+  let h i = (n land (1 lsl i)) <> 0 in
+  f (h 0) (h 1) (h 2) (h 3) (h 4) (h 5) (h 6) (h 7))
+                                                                    (fun b15 b16 b17 b18 b19 b20 b21 b22 ->
+                                                                    if b15
+                                                                    then false
+                                                                    else 
+                                                                    if b16
+                                                                    then false
+                                                                    else 
+                                                                    if b17
+                                                                    then false
+                                                                    else 
+                                                                    if b18
+                                                                    then false
+                                                                    else 
+                                                                    if b19
+                                                                    then 
+                                                                    if b20
+                                                                    then 
+                                                                    if b21
+                                                                    then 
+                                                                    if b22
+                                                                    then false
+                                                                    else 
+                                                                    (match s1 with
+                                                                    | [] ->
+                                                                    false
+                                                                    | a2::s2 ->
+                                                                    (* If this appears, you're using Ascii internals. Please don't *)
+ (fun f c ->
+  let n = Char.code c in
+  let h i = (n land (1 lsl i)) <> 0 in
+  f (h 0) (h 1) (h 2) (h 3) (h 4) (h 5) (h 6) (h 7))
+                                                                    (fun b23 b24 b25 b26 b27 b28 b29 b30 ->
+                                                                    if b23
+                                                                    then 
+                                                                    if b24
+                                                                    then 
+                                                                    if b25
+                                                                    then 
+                                                                    if b26
+                                                                    then 
+                                                                    if b27
+                                                                    then false
+                                                                    else 
+                                                                    if b28
+                                                                    then 
+                                                                    if b29
+                                                                    then 
+                                                                    if b30
+                                                                    then false
+                                                                    else 
+                                                                    (match s2 with
+                                                                    | [] ->
+                                                                    false
+                                                                    | a3::s3 ->
+                                                                    (* If this appears, you're using Ascii internals. Please don't *)
+ (fun f c ->
+  let n = Char.code c in
+  let h i = (n land (1 lsl i)) <> 0 in
+  f (h 0) (h 1) (h 2) (h 3) (h 4) (h 5) (h 6) (h 7))
+                                                                    (fun b31 b32 b33 b34 b35 b36 b37 b38 ->
+                                                                    if b31
+                                                                    then false
+                                                                    else 
+                                                                    if b32
+                                                                    then 
+                                                                    if b33
+                                                                    then false
+                                                                    else 
+                                                                    if b34
+                                                                    then false
+                                                                    else 
+                                                                    if b35
+                                                                    then 
+                                                                    if b36
+                                                                    then 
+                                                                    if b37
+                                                                    then 
+                                                                    if b38
+                                                                    then false
+                                                                    else 
+                                                                    (match s3 with
+                                                                    | [] ->
+                                                                    false
+                                                                    | a4::s4 ->
+                                                                    (* If this appears, you're using Ascii internals. Please don't *)
+ (fun f c ->
+  let n = Char.code c in
+  let h i = (n land (1 lsl i)) <> 0 in
+  f (h 0) (h 1) (h 2) (h 3) (h 4) (h 5) (h 6) (h 7))
+                                                                    (fun b39 b40 b41 b42 b43 b44 b45 b46 ->
+                                                                    if b39
+                                                                    then false
+                                                                    else 
+                                                                    if b40
+                                                                    then false
+                                                                    else 
+                                                                    if b41
+                                                                    then 
+                                                                    if b42
+                                                                    then false
+                                                                    else 
+                                                                    if b43
+                                                                    then 
+                                                                    if b44
+                                                                    then 
+                                                                    if b45
+                                                                    then 
+                                                                    if b46
+                                                                    then false
+                                                                    else 
+                                                                    (match s4 with
+                                                                    | [] ->
+                                                                    false
+                                                                    | a5::s5 ->
+                                                                    (* If this appears, you're using Ascii internals. Please don't *)
+ (fun f c ->
+  let n = Char.code c in
+  let h i = (n land (1 lsl i)) <> 0 in
+  f (h 0) (h 1) (h 2) (h 3) (h 4) (h 5) (h 6) (h 7))
+                                                                    (fun b47 b48 b49 b50 b51 b52 b53 b54 ->
+                                                                    if b47
+                                                                    then 
+                                                                    if b48
+                                                                    then 
+                                                                    if b49
+                                                                    then false
+                                                                    else 
+                                                                    if b50
+                                                                    then false
+                                                                    else 
+                                                                    if b51
+                                                                    then 
+                                                                    if b52
+                                                                    then false
+                                                                    else 
+                                                                    if b53
+                                                                    then 
+                                                                    if b54
+                                                                    then false
+                                                                    else 
+                                                                    (match s5 with
+                                                                    | [] ->
+                                                                    false
+                                                                    | a6::s6 ->
+                                                                    (* If this appears, you're using Ascii internals. Please don't *)
+ (fun f c ->
+  let n = Char.code c in
+  let h i = (n land (1 lsl i)) <> 0 in
+  f (h 0) (h 1) (h 2) (h 3) (h 4) (h 5) (h 6) (h 7))
+                                                                    (fun b55 b56 b57 b58 b59 b60 b61 b62 ->
+                                                                    if b55
+                                                                    then false
+                                                                    else 
+                                                                    if b56
+                                                                    then false
+                                                                    else 
+                                                                    if b57
+                                                                    then false
+                                                                    else 
+                                                                    if b58
+                                                                    then false
+                                                                    else 
+                                                                    if b59
+                                                                    then 
+                                                                    if b60
+                                                                    then 
+                                                                    if b61
+                                                                    then 
+                                                                    if b62
+                                                                    then false
+                                                                    else 
+                                                                    (match s6 with
+                                                                    | [] ->
+                                                                    false
+                                                                    | a7::s7 ->
+                                                                    (* If this appears, you're using Ascii internals. Please don't *)
+ (fun f c ->
+  let n = Char.code c in
+  let h i = (n land (1 lsl i)) <> 0 in
+  f (h 0) (h 1) (h 2) (h 3) (h 4) (h 5) (h 6) (h 7))
+                                                                    (fun b63 b64 b65 b66 b67 b68 b69 b70 ->
+                                                                    if b63
+                                                                    then 
+                                                                    if b64
+                                                                    then false
+                                                                    else 
+                                                                    if b65
+                                                                    then 
+                                                                    if b66
+                                                                    then false
+                                                                    else 
+                                                                    if b67
+                                                                    then false
+                                                                    else 
+                                                                    if b68
+                                                                    then 
+                                                                    if b69
+                                                                    then 
+                                                                    if b70
+                                                                    then false
+                                                                    else 
+                                                                    (match s7 with
+                                                                    | [] ->
+                                                                    false
+                                                                    | a8::s8 ->
+                                                                    (* If this appears, you're using Ascii internals. Please don't *)
+ (fun f c ->
+  let n = Char.code c in
+  let h i = (n land (1 lsl i)) <> 0 in
+  f (h 0) (h 1) (h 2) (h 3) (h 4) (h 5) (h 6) (h 7))
+                                                                    (fun b71 b72 b73 b74 b75 b76 b77 b78 ->
+                                                                    if b71
+                                                                    then 
+                                                                    if b72
+                                                                    then 
+                                                                    if b73
+                                                                    then false
+                                                                    else 
+                                                                    if b74
+                                                                    then false
+                                                                    else 
+                                                                    if b75
+                                                                    then false
+                                                                    else 
+                                                                    if b76
+                                                                    then 
+                                                                    if b77
+                                                                    then 
+                                                                    if b78
+                                                                    then false
+                                                                    else 
+                                                                    (match s8 with
+                                                                    | [] ->
+                                                                    false
+                                                                    | a9::s9 ->
+                                                                    (* If this appears, you're using Ascii internals. Please don't *)
+ (fun f c ->
+  let n = Char.code c in
+  let h i = (n land (1 lsl i)) <> 0 in
+  f (h 0) (h 1) (h 2) (h 3) (h 4) (h 5) (h 6) (h 7))
+                                                                    (fun b79 b80 b81 b82 b83 b84 b85 b86 ->
+                                                                    if b79
+                                                                    then 
+                                                                    if b80
+                                                                    then false
+                                                                    else 
+                                                                    if b81
+                                                                    then false
+                                                                    else 
+                                                                    if b82
+                                                                    then 
+                                                                    if b83
+                                                                    then false
+                                                                    else 
+                                                                    if b84
+                                                                    then 
+                                                                    if b85
+                                                                    then 
+                                                                    if b86
+                                                                    then false
+                                                                    else 
+                                                                    (match s9 with
+                                                                    | [] ->
+                                                                    false
+                                                                    | a10::s10 ->
+                                                                    (* If this appears, you're using Ascii internals. Please don't *)
+ (fun f c ->
+  let n = Char.code c in
+  let h i = (n land (1 lsl i)) <> 0 in
+  f (h 0) (h 1) (h 2) (h 3) (h 4) (h 5) (h 6) (h 7))
+                                                                    (fun b87 b88 b89 b90 b91 b92 b93 b94 ->
+                                                                    if b87
+                                                                    then false
+                                                                    else 
+                                                                    if b88
+                                                                    then 
+                                                                    if b89
+                                                                    then 
+                                                                    if b90
+                                                                    then false
+                                                                    else 
+                                                                    if b91
+                                                                    then false
+                                                                    else 
+                                                                    if b92
+                                                                    then 
+                                                                    if b93
+                                                                    then 
+                                                                    if b94
+                                                                    then false
+                                                                    else 
+                                                                    (match s10 with
+                                                                    | [] ->
+                                                                    false
+                                                                    | a11::s11 ->
+                                                                    (* If this appears, you're using Ascii internals. Please don't *)
+ (fun f c ->
+  let n = Char.code c in
+  let h i = (n land (1 lsl i)) <> 0 in
+  f (h 0) (h 1) (h 2) (h 3) (h 4) (h 5) (h 6) (h 7))
+                                                                    (fun b95 b96 b97 b98 b99 b100 b101 b102 ->
+                                                                    if b95
+                                                                    then 
+                                                                    if b96
+                                                                    then false
+                                                                    else 
+                                                                    if b97
+                                                                    then false
+                                                                    else 
+                                                                    if b98
+                                                                    then 
+                                                                    if b99
+                                                                    then false
+                                                                    else 
+                                                                    if b100
+                                                                    then 
+                                                                    if b101
+                                                                    then 
+                                                                    if b102
+                                                                    then false
+                                                                    else 
+                                                                    (match s11 with
+                                                                    | [] ->
+                                                                    false
+                                                                    | a12::s12 ->
+                                                                    (* If this appears, you're using Ascii internals. Please don't *)
+ (fun f c ->
+  let n = Char.code c in
+  let h i = (n land (1 lsl i)) <> 0 in
+  f (h 0) (h 1) (h 2) (h 3) (h 4) (h 5) (h 6) (h 7))
+                                                                    (fun b103 b104 b105 b106 b107 b108 b109 b110 ->
+                                                                    if b103
+                                                                    then 
+                                                                    if b104
+                                                                    then false
+                                                                    else 
+                                                                    if b105
+                                                                    then 
+                                                                    if b106
+                                                                    then false
+                                                                    else 
+                                                                    if b107
+                                                                    then false
+                                                                    else 
+                                                                    if b108
+                                                                    then 
+                                                                    if b109
+                                                                    then 
+                                                                    if b110
+                                                                    then false
+                                                                    else 
+                                                                    (match s12 with
+                                                                    | [] ->
+                                                                    false
+                                                                    | a13::s13 ->
+                                                                    (* If this appears, you're using Ascii internals. Please don't *)
+ (fun f c ->
+  let n = Char.code c in
+  let h i = (n land (1 lsl i)) <> 0 in
+  f (h 0) (h 1) (h 2) (h 3) (h 4) (h 5) (h 6) (h 7))
+                                                                    (fun b111 b112 b113 b114 b115 b116 b117 b118 ->
+                                                                    if b111
+                                                                    then false
+                                                                    else 
+                                                                    if b112
+                                                                    then 
+                                                                    if b113
+                                                                    then false
+                                                                    else 
+                                                                    if b114
+                                                                    then false
+                                                                    else 
+                                                                    if b115
+                                                                    then 
+                                                                    if b116
+                                                                    then 
+                                                                    if b117
+                                                                    then 
+                                                                    if b118
+                                                                    then false
+                                                                    else 
+                                                                    (match s13 with
+                                                                    | [] ->
+                                                                    true
+                                                                    | _::_ ->
+                                                                    false)
+                                                                    else false
+                                                                    else false
+                                                                    else false
+                                                                    else false)
+                                                                    a13)
+                                                                    else false
+                                                                    else false
+                                                                    else false
+                                                                    else false)
+                                                                    a12)
+                                                                    else false
+                                                                    else false
+                                                                    else false
+                                                                    else false)
+                                                                    a11)
+                                                                    else false
+                                                                    else false
+                                                                    else false
+                                                                    else false)
+                                                                    a10)
+                                                                    else false
+                                                                    else false
+                                                                    else false
+                                                                    else false)
+                                                                    a9)
+                                                                    else false
+                                                                    else false
+                                                                    else false
+                                                                    else false)
+                                                                    a8)
+                                                                    else false
+                                                                    else false
+                                                                    else false
+                                                                    else false)
+                                                                    a7)
+                                                                    else false
+                                                                    else false
+                                                                    else false)
+                                                                    a6)
+                                                                    else false
+                                                                    else false
+                                                                    else false
+                                                                    else false)
+                                                                    a5)
+                                                                    else false
+                                                                    else false
+                                                                    else false
+                                                                    else false)
+                                                                    a4)
+                                                                    else false
+                                                                    else false
+                                                                    else false
+                                                                    else false)
+                                                                    a3)
+                                                                    else false
+                                                                    else false
+                                                                    else false
+                                                                    else false
+                                                                    else false
+                                                                    else false)
+                                                                    a2)
+                                                                    else false
+                                                                    else false
+                                                                    else false)
+                                                                    a1)
+                                                                    else false
+                                                                    else false
+                                                                    else false
+                                                                   else false
+                                                            else false)
+                                                            a0)
+                                             else false
+                              else if b3
+                                   then false
+                                   else if b4
+                                        then false
+                                        else if b5
+                                             then if b6
+                                                  then false
+                                                  else (match s with
+                                                        | [] -> false
+                                                        | a0::s0 ->
+                                                          (* If this appears, you're using Ascii internals. Please don't *)
+ (fun f c ->
+  let n = Char.code c in
+  let h i = (n land (1 lsl i)) <> 0 in
+  f (h 0) (h 1) (h 2) (h 3) (h 4) (h 5) (h 6) (h 7))
+                                                            (fun b7 b8 b9 b10 b11 b12 b13 b14 ->
+                                                            if b7
+                                                            then if b8
+                                                                 then false
+                                                                 else 
+                                                                   if b9
+                                                                   then 
+                                                                    if b10
+                                                                    then false
+                                                                    else 
+                                                                    if b11
+                                                                    then 
+                                                                    if b12
+                                                                    then 
+                                                                    if b13
+                                                                    then 
+                                                                    if b14
+                                                                    then false
+                                                                    else 
+                                                                    (match s0 with
+                                                                    | [] ->
+                                                                    false
+                                                                    | a1::s1 ->
+                                                                    (* If this appears, you're using Ascii internals. Please don't *)
+ (fun f c ->
+  let n = Char.code c in
+  let h i = (n land (1 lsl i)) <> 0 in
+  f (h 0) (h 1) (h 2) (h 3) (h 4) (h 5) (h 6) (h 7))
+                                                                    (fun b15 b16 b17 b18 b19 b20 b21 b22 ->
+                                                                    if b15
+                                                                    then false
+                                                                    else 
+                                                                    if b16
+                                                                    then false
+                                                                    else 
+                                                                    if b17
+                                                                    then 
+                                                                    if b18
+                                                                    then false
+                                                                    else 
+                                                                    if b19
+                                                                    then 
+                                                                    if b20
+                                                                    then 
+                                                                    if b21
+                                                                    then 
+                                                                    if b22
+                                                                    then false
+                                                                    else 
+                                                                    (match s1 with
+                                                                    | [] ->
+                                                                    false
+                                                                    | a2::s2 ->
+                                                                    (* If this appears, you're using Ascii internals. Please don't *)
+ (fun f c ->
+  let n = Char.code c in
+  let h i = (n land (1 lsl i)) <> 0 in
+  f (h 0) (h 1) (h 2) (h 3) (h 4) (h 5) (h 6) (h 7))
+                                                                    (fun b23 b24 b25 b26 b27 b28 b29 b30 ->
+                                                                    if b23
+                                                                    then 
+                                                                    if b24
+                                                                    then 
+                                                                    if b25
+                                                                    then 
+                                                                    if b26
+                                                                    then 
+                                                                    if b27
+                                                                    then false
+                                                                    else 
+                                                                    if b28
+                                                                    then 
+                                                                    if b29
+                                                                    then 
+                                                                    if b30
+                                                                    then false
+                                                                    else 
+                                                                    (match s2 with
+                                                                    | [] ->
+                                                                    false
+                                                                    | a3::s3 ->
+                                                                    (* If this appears, you're using Ascii internals. Please don't *)
+ (fun f c ->
+  let n = Char.code c in
+  let h i = (n land (1 lsl i)) <> 0 in
+  f (h 0) (h 1) (h 2) (h 3) (h 4) (h 5) (h 6) (h 7))
+                                                                    (fun b31 b32 b33 b34 b35 b36 b37 b38 ->
+                                                                    if b31
+                                                                    then 
+                                                                    if b32
+                                                                    then false
+                                                                    else 
+                                                                    if b33
+                                                                    then false
+                                                                    else 
+                                                                    if b34
+                                                                    then false
+                                                                    else 
+                                                                    if b35
+                                                                    then false
+                                                                    else 
+                                                                    if b36
+                                                                    then false
+                                                                    else 
+                                                                    if b37
+                                                                    then 
+                                                                    if b38
+                                                                    then false
+                                                                    else 
+                                                                    (match s3 with
+                                                                    | [] ->
+                                                                    false
+                                                                    | a4::s4 ->
+                                                                    (* If this appears, you're using Ascii internals. Please don't *)
+ (fun f c ->
+  let n = Char.code c in
+  let h i = (n land (1 lsl i)) <> 0 in
+  f (h 0) (h 1) (h 2) (h 3) (h 4) (h 5) (h 6) (h 7))
+                                                                    (fun b39 b40 b41 b42 b43 b44 b45 b46 ->
+                                                                    if b39
+                                                                    then 
+                                                                    if b40
+                                                                    then 
+                                                                    if b41
+                                                                    then false
+                                                                    else 
+                                                                    if b42
+                                                                    then false
+                                                                    else 
+                                                                    if b43
+                                                                    then false
+                                                                    else 
+                                                                    if b44
+                                                                    then 
+                                                                    if b45
+                                                                    then 
+                                                                    if b46
+                                                                    then false
+                                                                    else 
+                                                                    (match s4 with
+                                                                    | [] ->
+                                                                    false
+                                                                    | a5::s5 ->
+                                                                    (* If this appears, you're using Ascii internals. Please don't *)
+ (fun f c ->
+  let n = Char.code c in
+  let h i = (n land (1 lsl i)) <> 0 in
+  f (h 0) (h 1) (h 2) (h 3) (h 4) (h 5) (h 6) (h 7))
+                                                                    (fun b47 b48 b49 b50 b51 b52 b53 b54 ->
+                                                                    if b47
+                                                                    then 
+                                                                    if b48
+                                                                    then 
+                                                                    if b49
+                                                                    then false
+                                                                    else 
+                                                                    if b50
+                                                                    then false
+                                                                    else 
+                                                                    if b51
+                                                                    then false
+                                                                    else 
+                                                                    if b52
+                                                                    then 
+                                                                    if b53
+                                                                    then 
+                                                                    if b54
+                                                                    then false
+                                                                    else 
+                                                                    (match s5 with
+                                                                    | [] ->
+                                                                    false
+                                                                    | a6::s6 ->
+                                                                    (* If this appears, you're using Ascii internals. Please don't *)
+ (fun f c ->
+  let n = Char.code c in
+  let h i = (n land (1 lsl i)) <> 0 in
+  f (h 0) (h 1) (h 2) (h 3) (h 4) (h 5) (h 6) (h 7))
+                                                                    (fun b55 b56 b57 b58 b59 b60 b61 b62 ->
+                                                                    if b55
+                                                                    then 
+                                                                    if b56
+                                                                    then false
+                                                                    else 
+                                                                    if b57
+                                                                    then 
+                                                                    if b58
+                                                                    then false
+                                                                    else 
+                                                                    if b59
+                                                                    then false
+                                                                    else 
+                                                                    if b60
+                                                                    then 
+                                                                    if b61
+                                                                    then 
+                                                                    if b62
+                                                                    then false
+                                                                    else 
+                                                                    (match s6 with
+                                                                    | [] ->
+                                                                    false
+                                                                    | a7::s7 ->
+                                                                    (* If this appears, you're using Ascii internals. Please don't *)
+ (fun f c ->
+  let n = Char.code c in
+  let h i = (n land (1 lsl i)) <> 0 in
+  f (h 0) (h 1) (h 2) (h 3) (h 4) (h 5) (h 6) (h 7))
+                                                                    (fun b63 b64 b65 b66 b67 b68 b69 b70 ->
+                                                                    if b63
+                                                                    then 
+                                                                    if b64
+                                                                    then 
+                                                                    if b65
+                                                                    then false
+                                                                    else 
+                                                                    if b66
+                                                                    then false
+                                                                    else 
+                                                                    if b67
+                                                                    then 
+                                                                    if b68
+                                                                    then 
+                                                                    if b69
+                                                                    then 
+                                                                    if b70
+                                                                    then false
+                                                                    else 
+                                                                    (match s7 with
+                                                                    | [] ->
+                                                                    false
+                                                                    | a8::s8 ->
+                                                                    (* If this appears, you're using Ascii internals. Please don't *)
+ (fun f c ->
+  let n = Char.code c in
+  let h i = (n land (1 lsl i)) <> 0 in
+  f (h 0) (h 1) (h 2) (h 3) (h 4) (h 5) (h 6) (h 7))
+                                                                    (fun b71 b72 b73 b74 b75 b76 b77 b78 ->
+                                                                    if b71
+                                                                    then 
+                                                                    if b72
+                                                                    then 
+                                                                    if b73
+                                                                    then false
+                                                                    else 
+                                                                    if b74
+                                                                    then false
+                                                                    else 
+                                                                    if b75
+                                                                    then 
+                                                                    if b76
+                                                                    then 
+                                                                    if b77
+                                                                    then 
+                                                                    if b78
+                                                                    then false
+                                                                    else 
+                                                                    (match s8 with
+                                                                    | [] ->
+                                                                    false
+                                                                    | a9::s9 ->
+                                                                    (* If this appears, you're using Ascii internals. Please don't *)
+ (fun f c ->
+  let n = Char.code c in
+  let h i = (n land (1 lsl i)) <> 0 in
+  f (h 0) (h 1) (h 2) (h 3) (h 4) (h 5) (h 6) (h 7))
+                                                                    (fun b79 b80 b81 b82 b83 b84 b85 b86 ->
+                                                                    if b79
+                                                                    then 
+                                                                    if b80
+                                                                    then 
+                                                                    if b81
+                                                                    then 
+                                                                    if b82
+                                                                    then 
+                                                                    if b83
+                                                                    then false
+                                                                    else 
+                                                                    if b84
+                                                                    then 
+                                                                    if b85
+                                                                    then 
+                                                                    if b86
+                                                                    then false
+                                                                    else 
+                                                                    (match s9 with
+                                                                    | [] ->
+                                                                    false
+                                                                    | a10::s10 ->
+                                                                    (* If this appears, you're using Ascii internals. Please don't *)
+ (fun f c ->
+  let n = Char.code c in
+  let h i = (n land (1 lsl i)) <> 0 in
+  f (h 0) (h 1) (h 2) (h 3) (h 4) (h 5) (h 6) (h 7))
+                                                                    (fun b87 b88 b89 b90 b91 b92 b93 b94 ->
+                                                                    if b87
+                                                                    then false
+                                                                    else 
+                                                                    if b88
+                                                                    then 
+                                                                    if b89
+                                                                    then false
+                                                                    else 
+                                                                    if b90
+                                                                    then false
+                                                                    else 
+                                                                    if b91
+                                                                    then 
+                                                                    if b92
+                                                                    then 
+                                                                    if b93
+                                                                    then 
+                                                                    if b94
+                                                                    then false
+                                                                    else 
+                                                                    (match s10 with
+                                                                    | [] ->
+                                                                    eqb index
+                                                                    O
+                                                                    | _::_ ->
+                                                                    false)
+                                                                    else false
+                                                                    else false
+                                                                    else false
+                                                                    else false)
+                                                                    a10)
+                                                                    else false
+                                                                    else false
+                                                                    else false
+                                                                    else false
+                                                                    else false
+                                                                    else false)
+                                                                    a9)
+                                                                    else false
+                                                                    else false
+                                                                    else false
+                                                                    else false
+                                                                    else false)
+                                                                    a8)
+                                                                    else false
+                                                                    else false
+                                                                    else false
+                                                                    else false
+                                                                    else false)
+                                                                    a7)
+                                                                    else false
+                                                                    else false
+                                                                    else false
+                                                                    else false)
+                                                                    a6)
+                                                                    else false
+                                                                    else false
+                                                                    else false
+                                                                    else false)
+                                                                    a5)
+                                                                    else false
+                                                                    else false
+                                                                    else false
+                                                                    else false)
+                                                                    a4)
+                                                                    else false
+                                                                    else false)
+                                                                    a3)
+                                                                    else false
+                                                                    else false
+                                                                    else false
+                                                                    else false
+                                                                    else false
+                                                                    else false)
+                                                                    a2)
+                                                                    else false
+                                                                    else false
+                                                                    else false
+                                                                    else false)
+                                                                    a1)
+                                                                    else false
+                                                                    else false
+                                                                    else false
+                                                                   else false
+                                                            else false)
+                                                            a0)
+                                             else false
+               else false)
+               a)
+        | _ -> false)
+     | _ -> false)
+
+(** val walk : node -> lit_entry list **)
+
+let rec walk = function
+| Node (t, cs) ->
+  if skipped (Node (t, cs))
+  then []
+  else app (here (Node (t, cs)))
+         (let rec go i = function
+          | [] -> []
+          | c :: l' ->
+            app (if not_an_expression t i c then [] else walk c) (go (S i) l')
+          in go O cs)
+
+(** val sp_eqb : sp -> sp -> bool **)
+
+let sp_eqb a b =
+  (&&) (N.eqb (fst a) (fst b)) (N.eqb (snd a) (snd b))
+
+(** val same_entry : lit_entry -> lit_entry -> bool **)
+
+let same_entry a b =
+  (&&) (eqb1 a.le_value b.le_value) (sp_eqb a.le_span b.le_span)
+
+(** val dedup :
+    lit_entry list -> lit_entry list -> lit_entry list -> lit_entry list **)
+
+let rec dedup seen acc1 = function
+| [] -> rev0 acc1
+| e :: l' ->
+  if existsb (same_entry e) seen
+  then dedup seen acc1 l'
+  else dedup (e :: seen) (e :: acc1) l'
+
+(** val collect : bool -> node -> lit_entry list option **)
+
+let collect enabled prog =
+  if enabled then Some (dedup [] [] (walk prog)) else None
 
 module NilEmpty =
  struct
@@ -6060,7 +8888,7 @@ let first_arg = function
 
 let rec hook_tags_aux vp env asg = function
 | Node (t, cs) ->
-  let here =
+  let here0 =
     match hook_call (Node (t, cs)) with
     | Some p ->
       let (_, args) = p in
@@ -6179,7 +9007,7 @@ let rec hook_tags_aux vp env asg = function
       | c :: l' -> app (hook_tags_aux vp env None c) (go l')
       in go cs
   in
-  app here rest
+  app here0 rest
 
 (** val hook_tags : char list -> node -> char list list **)
 
@@ -9706,7 +12534,7 @@ let with_excluded w =
 (** val sites_walk : site_cfg -> wctx -> node -> site list **)
 
 let rec sites_walk c w n0 =
-  let here =
+  let here0 =
     if w.excluded
     then []
     else if (||) w.in_block (negb (eqb1 w.cls []))
@@ -9723,7 +12551,7 @@ let rec sites_walk c w n0 =
     | x :: l' -> app (sites_walk c w' x) (go l')
     in go
   in
-  app here
+  app here0
     (let Node (t, cs) = n0 in
      (match t with
       | K (k, _, _) ->
@@ -10235,16 +13063,16 @@ let rec hook_keys_aux env = function
 let hook_keys out =
   hook_keys_aux [] out
 
-(** val sp_eqb : sp -> sp -> bool **)
+(** val sp_eqb0 : sp -> sp -> bool **)
 
-let sp_eqb a b =
+let sp_eqb0 a b =
   (&&) (N.eqb (fst a) (fst b)) (N.eqb (snd a) (snd b))
 
 (** val missing_sites : site_cfg -> node -> node -> site list **)
 
 let missing_sites c pin pout =
   let keys = hook_keys pout in
-  filter (fun s -> negb (existsb (sp_eqb s.s_key) keys))
+  filter (fun s -> negb (existsb (sp_eqb0 s.s_key) keys))
     (required_sites c pin)
 
 (** val mem_str0 : char list -> char list list -> bool **)
